@@ -98,6 +98,22 @@ def run(pid, tier):
                     key_fn=lambda c: (c["case"]["target"], tuple((s["accept_after_polls"], s["refuse_with"], s["stall"],
                                       s["fall_back_after"], s.get("silent", False)) for s in c["case"]["scripts"]), c["result"]),
                     sample_fn=lambda c: c["result"] != "ok")
+    # vacuity guard: comparing the OR of a frame's answers instead of every answer must let a silent device through
+    ctl_mod = ("---- MODULE AlStateMC_control ----\nEXTENDS AlState\nMCScripts == "
+               "{[after |-> a, refuse |-> FALSE, stall |-> FALSE, fallAfter |-> 0, silent |-> FALSE] : a \\in 0..1} \\cup "
+               "{[after |-> 0, refuse |-> FALSE, stall |-> FALSE, fallAfter |-> 0, silent |-> TRUE]}\n====\n")
+    ctl_cfg = lib.cfg_text(init="AsInit", next_="AsNext", constants=dict(NDev=3, Members="{1, 2, 3}", PerFrame=79, MaxRounds=6,
+                                                                       From=2, Target=4, PerDeviceCheck=False),
+                           invariants=["BadDeviceMeansError"]).replace("CONSTANTS\n", "CONSTANTS\n  Scripts <- MCScripts\n")
+    import os as _os
+    dctl = _os.path.join(sc.wd, "mc-control")
+    _os.makedirs(dctl, exist_ok=True)
+    with open(_os.path.join(dctl, "AlStateMC_control.tla"), "w") as fh:
+        fh.write(ctl_mod)
+    rc = lib.tlc(dctl, "AlStateMC_control", ctl_cfg, workers=4, timeout=600, heap="4g")
+    if "BadDeviceMeansError" not in (rc.violated or []):
+        raise lib.ToolError(f"control: AlState.tla with PerDeviceCheck=FALSE does not let a silent device through ({rc.violated}, {rc.error})")
+    lib.log("control: PerDeviceCheck=FALSE lets a silent device through in the model, as it must")
     cases = random_cases(rnd, 400 if q else 20000)
     trace = sc.run_cases("random", cases)
     sc.validate("random", trace, "AlStateTrace", dict(NDev=1, Members="{1}", PerFrame=1, MaxRounds=1, From=2, Target=4,
